@@ -296,6 +296,81 @@ class Body:
                     dq.append(s)
         return seen
 
+    def reach_bool(self, starts, removed=frozenset(), stop=frozenset()):
+        """Like reach(), but path-sensitive in ONE boolean local at a time: for every bool local that some
+        switch tests and that is assigned a constant on at least one path (the `let c = a && b; if c` /
+        `matches!` shape), reachability is computed on the product (block, value of that local in {T, F, ?}).
+        Returns the intersection over those locals (and plain reach): a block is reported reachable only
+        if it is reachable whichever single flag is tracked."""
+        base = self.reach(starts, removed, stop)
+        tested = set()
+        for b in self.blocks:
+            if not b.cleanup and b.term[0] == 'sw' and b.term[1][0] in ('copy', 'move') and not b.term[1][1][1] \
+                    and self.lty(b.term[1][1][0]) == 'bool':
+                tested.add(b.term[1][1][0])
+                for (_, pl, rv) in b.stmts:
+                    if pl[0] == b.term[1][1][0] and not pl[1] and rv[0] == 'use' and rv[1][0] in ('copy', 'move') and not rv[1][1][1]:
+                        tested.add(rv[1][1][0])
+        out = set(base)
+        for v in tested:
+            consts = False
+            for b in self.blocks:
+                for (_, pl, rv) in b.stmts:
+                    if pl[0] == v and not pl[1] and rv[0] == 'use' and rv[1][0] == 'const' and rv[1][3] is not None:
+                        consts = True
+            if not consts or v in self.const_locals():
+                continue
+            seen = set()
+            dq = deque((s, '?') for s in starts)
+            while dq:
+                st = dq.popleft()
+                if st in seen:
+                    continue
+                seen.add(st)
+                bi, val = st
+                if bi in stop:
+                    continue
+                blk = self.blocks[bi]
+                for (_, pl, rv) in blk.stmts:
+                    if pl[0] == v and not pl[1]:
+                        if rv[0] == 'use' and rv[1][0] == 'const' and rv[1][3] is not None:
+                            val = 'T' if rv[1][3] else 'F'
+                        else:
+                            val = '?'
+                t = blk.term
+                if t[0] == 'call' and t[1].dest[0] == v and not t[1].dest[1]:
+                    val = '?'
+                succs = self.succ(bi)
+                sw_on_v = False
+                if t[0] == 'sw' and t[1][0] in ('copy', 'move') and not t[1][1][1]:
+                    sl = t[1][1][0]
+                    if sl == v:
+                        sw_on_v = True
+                    else:
+                        # `_t = copy v; switchInt(move _t)` in the same block
+                        last = None
+                        for (_, pl, rv) in blk.stmts:
+                            if pl[0] == sl and not pl[1]:
+                                last = rv
+                            elif pl[0] == v and not pl[1]:
+                                last = None if last is not None else last
+                        if last is not None and last[0] == 'use' and last[1][0] in ('copy', 'move') and last[1][1] == (v, ()):
+                            sw_on_v = True
+                if sw_on_v and val != '?':
+                    c = 1 if val == 'T' else 0
+                    tgt = None
+                    for vv, bb in t[2]:
+                        if vv == c:
+                            tgt = bb
+                    succs = [tgt if tgt is not None else t[3]]
+                for s in succs:
+                    if (bi, s) in removed:
+                        continue
+                    if (s, val) not in seen:
+                        dq.append((s, val))
+            out &= {bi for bi, _ in seen}
+        return out
+
     def live(self):
         l = getattr(self, '_live', None)
         if l is None:
